@@ -3,6 +3,16 @@
 import json, subprocess
 ALL=[f"C{i:02d}" for i in range(1,20)]
 CLAIMED={
+ "C01": dict(
+   text="Every history to the tier's depth over a 13-symbol crash alphabet is run on the real server on a recording disk; every crash image (every cut of the write/barrier trace x every loss choice of un-barriered writes, full product up to the cap per epoch) is checked with an independent fsck and recovered with the real MakeNfs under two schedules; the recovered tree must equal the reference after a prefix containing every stably acknowledged operation; then allocator/cache audit, further operations, dump and fsck.",
+   note="Trusted: Disk contract (atomic block writes; Barrier persists all earlier writes), reference model, the canonical image key (home blocks + header + live log entries). Bounds: history depth, alphabet, loss product cap (capped epochs fall back to <=2 deviations + issue-order prefixes and are reported exhaustive:false), two background policies and two recovery schedules rather than all schedules; nested crash during recovery only for the KVS/simple checks.",
+   technique="crash-image enumeration over recorded disk traces of all bounded operation histories, recovery by the implementation, reference-model prefix oracle",
+   ref="DESIGN.md 4 (C01)"),
+ "C07": dict(
+   text="Every history to the tier's depth over UNSTABLE/DATA_SYNC/FILE_SYNC writes, COMMITs and metadata operations, option on and off: immediate read-back, committed level, verifier constancy; every crash image recovered and compared with the prefix states allowed by the acknowledgement order; clean restart without COMMIT.",
+   note="Trusted: as C01. A single client, so acknowledgement order = issue order. Bounds: depth, two files, alphabet of 16 symbols.",
+   technique="crash-image enumeration + explicit-state search over operation sequences of the implementation",
+   ref="DESIGN.md 4 (C07)"),
  "C02": dict(
    text="Explicit-state breadth-first search over operation sequences on the real server against a reference file system: namespace/data alphabet (29 symbols, both with and without the unstable option), name lengths 0..256, and offsets/sizes at every block and indirection boundary up to the announced maximum; after every transition the reply, an observation sweep with every read-only procedure, and a full-tree dump incl. handles are compared.",
    note="Trusted: the reference model (reffs) and its stated tolerance points (DESIGN.md Appendix A); state key = model + installed disk + allocator cursors + inode cache (log position is abstracted away). Bounds: depth, alphabets, two directories and a handful of names. XDR/RPC transport replay is not part of this check yet (see C16 for the codec).",
